@@ -1803,6 +1803,22 @@ def rule_list(ctx):
             if not ok:
                 r.violate(nx.name, "finalize", "an entry is scheduled for deallocation without this thread having unlinked it "
                           "(double free / premature free of a participant)", e.loc())
+        # ... and every entry this thread unlinked is handed to finalize (exactly once): nobody else will free it
+        for (ci, ce) in cas:
+            if ctx.cas_outcome(p, ce.result, ci) != "ok":
+                continue
+            nxt_cas = [c[0] for c in cas if c[0] > ci]
+            lim = nxt_cas[0] if nxt_cas else len(p.events)
+            fin_here = [e for (i, e) in fin if ci < i < lim]
+            if p.exit[0] == "retry" and not fin_here and lim == len(p.events) and \
+                    not any(q.kind == "cond" and q.term == ("disc", ce.result) for q in p.events[ci:]):
+                continue      # the back edge was taken before the outcome was examined
+            n += 1
+            okf = len(fin_here) == 1
+            r.instance("an unlinked entry is finalized exactly once", okf)
+            if not okf:
+                r.violate(nx.name, "unlinked-not-freed", "after a successful unlink the entry is handed to finalize %d times: "
+                          "an unlinked participant is never freed (or freed twice)" % len(fin_here), ce.loc())
         # stalled
         ret = p.ret
         if p.exit[0] == "return" and isinstance(ret, tuple) and ret[0] == "agg" and ret[2] == "Some":
@@ -1887,6 +1903,15 @@ def rule_list(ctx):
         r.violate(nx.name, "mark", "the deletion mark that Entry::delete sets (%s) is not the one the traversal looks for (%s): "
                   "deleted participants are never unlinked (and never freed), or live ones are taken for deleted"
                   % (sorted(marks, key=str), sorted(tests)), nx.loc(0))
+    # List::drop (the collector going away) finalizes what is still linked
+    ld = prog.bodies.get("<ebr_impl::sync::list::List<T, C> as std::ops::Drop>::drop")
+    if ld is not None:
+        r.functions.add(ld.name)
+        okd = any(norm(c.target or "").endswith("IsElement::finalize") for (_, _, c) in ld.calls())
+        r.instance("List::drop finalizes the remaining entries", okd)
+        if not okd:
+            r.violate(ld.name, "drop", "dropping the list does not finalize the entries still linked (their participants leak)",
+                      ld.loc(0))
     # insert
     ins = prog.body("ebr_impl::sync::list::List::<T, C>::insert")
     r.functions.add(ins.name)
